@@ -3,11 +3,12 @@ import AioModel.C07
 /-!
 Driver commands of property C07.
 
-`run <fixes> <limit> <lph> <mask> <keys> <label>…` → the state projection after every label, joined
+`run <fixes> <limit> <lph> <mask> <keepalive> <keys> <label>…` → the state projection after every label, joined
 by `|` (`last …`: only the final projection).  `<fixes>` = five 0/1 digits (f7 f8 race close trclose); `<mask>` = which trace hooks suspend; `<keys>` = `.`-separated key of each
 task; labels: `s<t>` spawn, `k` tick, `o<t>`/`f<t>` attempt ok/failed, `c<t>` cancel,
 `m<t>` connect timeout, `r<t>`/`x<t>` release to pool / close, `l<c>` idle connection lost,
-`C` connector close, `p<k>.<k>…` shuffle order, `t<t>` the trace callback of task t returns.
+`C` connector close, `p<k>.<k>…` shuffle order, `t<t>` the trace callback of task t returns,
+`a<d>` d seconds pass, `S` the keep-alive timer fires (`_cleanup()`).
 -/
 namespace Aio.Driver.C07
 open Aio Aio.Wire Aio.C07
@@ -33,6 +34,8 @@ def parseLabel (s : String) : Option Label :=
     | 'C' => if rest.isEmpty then some .close else none
     | 'p' => (parseNats arg).map .shuffle
     | 't' => arg.toNat?.map .traceDone
+    | 'a' => arg.toNat?.map .advance
+    | 'S' => if rest.isEmpty then some .sweep else none
     | _ => none
 
 def parseFixes (s : String) : Option Fixes :=
@@ -79,23 +82,23 @@ def showSt (nkeys : Nat) (s : St) : String :=
     ";".intercalate (s.wkeys.map (fun k => s!"{k}:{dots (s.waitq.filter (fun t => keyOf s t = k))}"))
   let idle := "/".intercalate (ks.map (fun k => dots (s.idle.filter (fun c => connKey s c = k))))
   s!"acq={s.acquired.length} ph={ph} host={per (hostCount s)} wq={wq} idle={idle} ready={dots s.ready} " ++
-  s!"tasks={",".intercalate (s.tasks.map showTask)} open={opn} closed={showBool s.closed}"
+  s!"tasks={",".intercalate (s.tasks.map showTask)} open={opn} closed={showBool s.closed} timer={showBool s.timer}"
 
 def handle : List String → String
-  | "run" :: fx :: limit :: lph :: mask :: keys :: labs =>
-    match parseFixes fx, limit.toNat?, lph.toNat?, mask.toNat?, parseNats keys, labs.mapM parseLabel with
-    | some fx, some limit, some lph, some mask, some keys, some labs =>
+  | "run" :: fx :: limit :: lph :: mask :: ka :: keys :: labs =>
+    match parseFixes fx, limit.toNat?, lph.toNat?, mask.toNat?, ka.toNat?, parseNats keys, labs.mapM parseLabel with
+    | some fx, some limit, some lph, some mask, some ka, some keys, some labs =>
       let nkeys := keys.foldl max 0 + 1
       let go := labs.foldl (fun (acc : St × List String) l =>
         let s := step fx acc.1 l
-        (s, showSt nkeys s :: acc.2)) (init limit lph keys mask, [])
+        (s, showSt nkeys s :: acc.2)) (init limit lph keys mask ka, [])
       "|".intercalate go.2.reverse
-    | _, _, _, _, _, _ => "bad-op"
-  | "last" :: fx :: limit :: lph :: mask :: keys :: labs =>
-    match parseFixes fx, limit.toNat?, lph.toNat?, mask.toNat?, parseNats keys, labs.mapM parseLabel with
-    | some fx, some limit, some lph, some mask, some keys, some labs =>
-      showSt (keys.foldl max 0 + 1) (run fx (init limit lph keys mask) labs)
-    | _, _, _, _, _, _ => "bad-op"
+    | _, _, _, _, _, _, _ => "bad-op"
+  | "last" :: fx :: limit :: lph :: mask :: ka :: keys :: labs =>
+    match parseFixes fx, limit.toNat?, lph.toNat?, mask.toNat?, ka.toNat?, parseNats keys, labs.mapM parseLabel with
+    | some fx, some limit, some lph, some mask, some ka, some keys, some labs =>
+      showSt (keys.foldl max 0 + 1) (run fx (init limit lph keys mask ka) labs)
+    | _, _, _, _, _, _, _ => "bad-op"
   | _ => "bad-op"
 
 end Aio.Driver.C07
